@@ -9,7 +9,8 @@
           (reported in the evidence as information, not a violation). *)
 From Coq Require Import List Arith ZArith NArith Lia Bool Floats.
 Import ListNotations.
-Require Import Clarabel.Base.Ops Clarabel.Csc.Model.
+Require Import Clarabel.Base.Ops Clarabel.Base.Dyadic Clarabel.Csc.Model.
+Close Scope Z_scope. (* opened by Base/Dyadic.v *)
 
 Definition rawZ := @raw Z.
 Definition cscZ := @csc Z.
@@ -200,6 +201,65 @@ Definition c_gemv_T_F (inp : rawF) (x y : list float) (a b : float) (yout : list
   ofb (flist_eqb yout (gemv_T_fast OpsF (decode inp) x y a b)).
 Definition c_symv_F (inp : rawF) (x y : list float) (a b : float) (yout : list float) : N :=
   ofb (flist_eqb yout (symv_coded OpsF (decode inp) x y a b)).
+
+(** ** general binary64 inputs (rounding happens): two levels.
+    Binding (code 1): every finite output entry is within [2^-45 * S_i] of the exact dense
+    meaning [E_i = b*y_i + a * sum_j A_ij x_j], [S_i = |b*y_i| + sum_j |a*A_ij*x_j|], both
+    evaluated exactly on dyadic numbers (every finite binary64 is one) -- whatever order and
+    association the implementation sums in.  Information only (code 2): the output also has
+    the bits of the transcribed summation order.  The [c_*_F] checkers above stay binding
+    because the harness feeds them only inputs whose partial sums are all exactly
+    representable (few-bit dyadics), so every summation order yields the same bits. *)
+Definition OpsDy : Ops dy := {|
+  zero := d0; one := d1; add := dadd; sub := dsub; mul := dmul; div := fun a _ => a;
+  neg := dneg; abs := dabs; sqrt := fun a => a;
+  ltb := dltb; leb := dleb; eqb := deqb; ofZ := dofZ |}.
+Definition f2d (x : float) : option dy :=
+  match Prim2SF x with
+  | S754_zero _ => Some (D 0 0)
+  | S754_finite s m e => Some (D (if s then Z.neg m else Z.pos m) e)
+  | _ => None
+  end.
+Fixpoint f2dl (l : list float) : option (list dy) :=
+  match l with
+  | [] => Some []
+  | x :: r => match f2d x, f2dl r with Some d, Some dr => Some (d :: dr) | _, _ => None end
+  end.
+Definition rawD (r : rawF) (nz : list dy) : @raw dy :=
+  mkRaw (rm r) (rn r) (rcolptr r) (rrowval r) nz.
+Definition within (k : Z) (r e s : dy) : bool := dleb (dabs (dsub r e)) (dmul (D 1 (- k)) s).
+Fixpoint all3 (f : dy -> dy -> dy -> bool) (a b c : list dy) : bool :=
+  match a, b, c with
+  | [], [], [] => true
+  | x :: a', y :: b', z :: c' => f x y z && all3 f a' b' c'
+  | _, _, _ => false
+  end.
+(** [Some true] within tolerance, [Some false] not, [None] some input/output is not finite *)
+Definition tol_check (kernel : Ops dy -> @csc dy -> list dy -> list dy -> dy -> dy -> list dy)
+    (inp : rawF) (x y : list float) (a b : float) (yout : list float) : option bool :=
+  match f2dl (rnzval inp), f2dl x, f2dl y, f2d a, f2d b, f2dl yout with
+  | Some nz, Some dx, Some dy0, Some da, Some db, Some dout =>
+      let exact := kernel OpsDy (decode (rawD inp nz)) dx dy0 da db in
+      let bound := kernel OpsDy (decode (rawD inp (map dabs nz))) (map dabs dx) (map dabs dy0)
+                          (dabs da) (dabs db) in
+      Some (all3 (within 45) dout exact bound)
+  | _, _, _, _, _, _ => None
+  end.
+Definition two_level (tol : option bool) (bits : bool) : N :=
+  match tol with
+  | Some false => 1%N
+  | Some true => if bits then 0%N else 2%N
+  | None => if bits then 0%N else 2%N
+  end.
+Definition c_gemv_G (inp : rawF) (x y : list float) (a b : float) (yout : list float) : N :=
+  two_level (tol_check (@gemv dy) inp x y a b yout)
+            (flist_eqb yout (gemv_fast OpsF (decode inp) x y a b)).
+Definition c_gemv_T_G (inp : rawF) (x y : list float) (a b : float) (yout : list float) : N :=
+  two_level (tol_check (@gemv_T dy) inp x y a b yout)
+            (flist_eqb yout (gemv_T_fast OpsF (decode inp) x y a b)).
+Definition c_symv_G (inp : rawF) (x y : list float) (a b : float) (yout : list float) : N :=
+  two_level (tol_check (@symv dy) inp x y a b yout)
+            (flist_eqb yout (symv_coded OpsF (decode inp) x y a b)).
 
 (** ** structural queries on any dimension-consistent encoding (unsorted, duplicated, ...) *)
 Definition c_raw_index_to_coord (inp : rawZ) (idx : N) (out : outcome (N * N)) : N :=
